@@ -94,7 +94,10 @@ impl State {
             // If the counter is already idle, and no updates were made since the last time the counter was flushed,
             // then we've already emitted our zero value and no longer need to emit updates until the counter is active
             // again.
-            if points_flushed == 0 {
+            //
+            // An update that is still in flight may have published its value but not yet its update count: a non-zero
+            // delta always counts as activity, since `flush` has already consumed it and skipping it would lose it.
+            if points_flushed == 0 && value == 0 {
                 if flush_state.is_counter_idle(&key) {
                     continue;
                 }
